@@ -344,6 +344,18 @@ class Lin:
                     return args[0]
                 if bn in ("zeros_like", "ones_like", "empty_like", "shape", "ndim", "size", "result_type", "iscomplexobj"):
                     return "Z"
+                aff_opts = facts.load("linear_in").get("affine_options", {}).get(bn)
+                if aff_opts and dep_pos == [0] and npre == 0:
+                    # linear in argument 0 only while the listed options are absent or zero (diff: prepend / append)
+                    sig_ = self.world.env.signature(ref.qual) or {"pos": []}
+                    extra = [v for k, v in t.kw.items() if k in aff_opts]
+                    extra += [a for i, a in enumerate(t.args) if i < len(sig_["pos"]) and sig_["pos"][i] in aff_opts]
+                    extra += [a for i, a in enumerate(t.args) if a.op == "star" and i >= 1]
+                    extra += list(t.get("dstar", []))
+                    if any(not zeroish(x_) for x_ in extra):
+                        self.blame(t, f"numpy.{bn} with {' / '.join(aff_opts)} (or forwarded *args / **kwargs) adds values that do not come from the (co)tangent: affine")
+                        return join(args[0], "A")
+                    return args[0]
                 if bn == "pad" and dep_pos == [0] and npre == 0:
                     if {"constant_values", "end_values"} & set(t.kw) or t.get("dstar"):
                         self.blame(t, "numpy.pad with constant_values/end_values (or forwarded **kwargs) is affine in the padded array")
@@ -433,6 +445,18 @@ def zeroish(t, depth=0):
         return zeroish(t.then, depth + 1) and zeroish(t.other, depth + 1)
     if t.op == "bin" and t.opname == "Mult":
         return zeroish(t.l, depth + 1) or zeroish(t.r, depth + 1)
+    if t.op in ("star", "dstar"):
+        return zeroish(t.x, depth + 1)
+    if t.op == "comp":
+        # [zeros_like(e) for e in ends] / {k: zeros_like(v) for ..}: zero element by element
+        e = t.elt
+        if t.get("kind") == "DictComp" and e.op == "tuple" and len(e.elts) == 2:
+            e = e.elts[1]
+        return zeroish(e, depth + 1)
+    if t.op in ("tuple", "list") and t.elts:
+        return all(zeroish(e, depth + 1) for e in t.elts)
+    if t.op == "seq":
+        return zeroish(t.value, depth + 1)
     return False
 
 
